@@ -35,10 +35,15 @@ PASS_KINDS = ("ImplicitCastExpr", "ParenExpr", "CXXFunctionalCastExpr", "CStyleC
 LIBM = {"sqrt": "sqrt", "pow": "pow", "round": "round", "ceil": "ceil", "floor": "floor", "fabs": "fabs", "abs": "fabs",
         "tan": "tan", "sin": "sin", "cos": "cos", "asin": "asin", "exp": "exp", "log": "log", "cbrt": "cbrt"}
 MUTATORS_OK = ("size", "empty", "back", "front", "at", "operator[]", "cbegin", "cend")
-SINK_CLASSES = ("RFKickMap", "DynamicRFKickMap", "DriftMap", "FokkerPlanckMap", "ElectricField", "HDF5File")
+SINK_CLASSES = ("RFKickMap", "DynamicRFKickMap", "DriftMap", "FokkerPlanckMap", "ElectricField", "HDF5File", "PhaseSpace")
 CLASS_SRC = {"RFKickMap": "src/SM/RFKickMap.cpp", "DynamicRFKickMap": "src/SM/DynamicRFKickMap.cpp",
              "DriftMap": "src/SM/DriftMap.cpp", "FokkerPlanckMap": "src/SM/FokkerPlanckMap.cpp",
-             "ElectricField": "src/PS/ElectricField.cpp", "HDF5File": "src/IO/HDF5File.cpp"}
+             "ElectricField": "src/PS/ElectricField.cpp", "HDF5File": "src/IO/HDF5File.cpp",
+             "PhaseSpace": "src/PS/PhaseSpace.cpp"}
+# AST filter per class (default: the class name); PhaseSpace: its constructors only (the whole class is large)
+CLASS_FILTER = {"PhaseSpace": "PhaseSpace::PhaseSpace"}
+# factory functions that build the first grid from a file: they receive main()'s axis extents as well
+PS_FACTORIES = ("makePSFromHDF5", "makePSFromTXT", "makePSFromPNG")
 
 
 class Unknown(Exception):
@@ -122,7 +127,7 @@ def base_var(me):
 def ctor_param_sets(cls):
     """[(names, signature)] of the constructors of vfps::<cls>; declaration and definition of one constructor
     (same signature) may name a parameter differently: `names` is then a list of tuples of alternatives"""
-    docs = ast_of(CLASS_SRC[cls], cls)
+    docs = ast_of(CLASS_SRC[cls], CLASS_FILTER.get(cls, cls))
     by_sig = {}
 
     def visit(d):
@@ -627,6 +632,10 @@ class SymExec:
                 fn = callee_name(m)
                 if fn == "makeImpedance":
                     nodes.append(("makeImpedance", m, kids(m)[1:]))
+                elif fn in PS_FACTORIES:
+                    nodes.append((fn, m, kids(m)[1:]))
+                elif fn == "setSize" and len(kids(m)) == 3:
+                    nodes.append(("PhaseSpace::setSize", m, kids(m)[1:]))
                 elif fn in ("make_unique", "make_shared"):
                     q = (m.get("type") or {}).get("desugaredQualType") or (m.get("type") or {}).get("qualType") or ""
                     for c in SINK_CLASSES:
@@ -647,6 +656,10 @@ class SymExec:
                 params = func_params("src/Z/ImpedanceFactory.cpp", "makeImpedance")
             elif target == "HDF5File::append":
                 params = ["ps", "t", "at"]
+            elif target in PS_FACTORIES:
+                params = func_params("src/PS/PhaseSpaceFactory.cpp", target)
+            elif target == "PhaseSpace::setSize":
+                params = ["x", "b"]
             else:
                 sets = ctor_param_sets(target)
                 cand = [p for p, sig in sets if len(p) == len(args)]
@@ -803,6 +816,21 @@ def roles(se):
     if dyn:
         R["dynrf_revolutionpart"] = same_everywhere([s.arg("revolutionpart") for s in dyn], "the `revolutionpart` argument of the dynamic RF map")
     R["drift_E0"] = same_everywhere([s.arg("E0") for s in dr], "the `E0` argument of DriftMap")
+    # axis extents of the first grid: the PhaseSpace constructor that takes (qmin, qmax, .., pmin, pmax, ..) and the factory
+    # functions that build the grid from a file; every one of them must receive the same four expressions
+    ax = find_sinks(se, "PhaseSpace", has=("qmin", "qmax", "pmin", "pmax"))
+    if not ax:
+        raise TranslateError("main() no longer constructs a PhaseSpace from (qmin, qmax, .., pmin, pmax, ..)")
+    for fn in PS_FACTORIES:
+        ax += find_sinks(se, fn, has=("qmin", "qmax", "pmin", "pmax"))
+    for nm in ("qmin", "qmax", "pmin", "pmax"):
+        R["axis_" + nm] = same_everywhere([s.arg(nm) for s in ax], "the `%s` argument of the PhaseSpace constructor / factories" % nm)
+    R["axis_sinks"] = ("lit", Fraction(len(ax)), "u32")
+    # number of grid points per axis: first argument of PhaseSpace::setSize (Ruler's `steps` is PhaseSpace::nx / ny)
+    sz = find_sinks(se, "PhaseSpace::setSize")
+    if len(sz) != 1 or sz[0].args[0] is None:
+        raise TranslateError("expected one PhaseSpace::setSize(<grid size>, <bunches>) call in main(), found %d" % len(sz))
+    R["axis_steps"] = sz[0].args[0]
     return R
 
 
